@@ -108,7 +108,8 @@ def refsStar (rules : List Rule) : Nat → Rule → Except Err (List Str)
 /-- `_get_data`: reader + `_preprocess_data` on the given references -/
 def getData (env : Env) (r : Rule) (refs : List Str) : Except Err Frame := do
   let rows ← liftMat (preprocess env.na refs (env.table r))
-  pure { srcCols := dedupFirst refs, rows := rows.map fun σ => { src := σ } }
+  -- a reader asked for NO column returns no row, whatever the table holds (`pd.read_csv(usecols=[])` is a (0, 0) frame)
+  pure { srcCols := dedupFirst refs, rows := if refs.isEmpty then [] else rows.map fun σ => { src := σ } }
 
 /-- the environment `_materialize_rml_rule` effectively works in at a nesting level: no graph term below level 0 -/
 def envAt (env : Env) (nest : Nat) : Env := if graphApplies nest then env else { env with fmt := .ntriples }
@@ -316,6 +317,13 @@ def frameOf (env : Env) (r : Rule) (refs : List Str) : Option Frame → Except E
   | some d => pure d
   | none => getData env r refs
 
+/-- the frame a rule with a quoted map works on (repaired shape `Gen.Star.noRefPlaceholder`: a rule that reads no reference at all —
+    its own term maps and every triples map it quotes are constant-valued — gets the one-row placeholder frame instead of the
+    `(0, 0)` frame a reader returns for an empty reference set) -/
+def frameOfStar (env : Env) (r : Rule) (refs : List Str) : Option Frame → Except Err Frame
+  | some d => pure d
+  | none => if Gen.Star.noRefPlaceholder && refs.isEmpty then pure placeholderFrame else getData env r refs
+
 /-- `_materialize_rml_rule(rml_rule, …, data=data, parent_join_references=pjr, nest_level=nest)`: the frame it returns -/
 def evalStar (env : Env) (rules : List Rule) : Nat → Rule → Option Frame → List Str → Nat → Except Err Frame
   | 0, _, _, _, _ => .error .fuel
@@ -333,7 +341,7 @@ def evalStar (env : Env) (rules : List Rule) : Nat → Rule → Option Frame →
         -- the frame is REPLACED by a one-row placeholder frame, also when `data` was passed down
         finish env r nest r.objectMapType r.objectMapValue [] placeholderFrame
     else if isStar r then do
-      let F ← frameOf env r refs data
+      let F ← frameOfStar env r refs data
       let F ← subjectStep rules (evalStar env rules fuel) r nest F
       let F ← objectStep rules (evalStar env rules fuel) r nest F
       finish env r nest r.objectMapType r.objectMapValue [] F
